@@ -32,6 +32,8 @@ Q(t) == <<"'">> \o t \o <<"'">>
 NoFrag == [items |-> <<>>, loops |-> <<>>, frames |-> <<>>, blocks |-> <<>>, lastonly |-> FALSE, needs1 |-> FALSE, anon |-> <<>>, extra |-> 0, alt |-> "none"]
 F(text, code) == [NoFrag EXCEPT !.items = <<>>] @@ [text |-> text, code |-> code]
 LongLine(n) == <<"#">> \o [i \in 1..(n - 1) |-> "x"]
+\* a line of n CHARACTERS of which 1200 lie outside the BMP (two UTF-16 code units each): the limit counts characters
+LongLineU(n) == <<"#">> \o [i \in 1..(n - 1) |-> IF i <= 1200 THEN "<U4>" ELSE "x"]
 
 \* text: the fragment (it starts on a fresh line); code: the first error code; items / loops / frames: what the recovery
 \* contributes to block b; blocks: further blocks; lastonly: must be planted after all host items; needs1: needs host item 1
@@ -98,6 +100,9 @@ Fragment(d) ==
                                  EXCEPT !.frames = <<[code |-> <<"g">>, items |-> <<It(Wd("_d1"), Bare(C1("1")))>>]>>, !.lastonly = TRUE]
       [] d = "overlength" -> [F(LongLine(2049), 108) EXCEPT !.extra = 0]
       [] d = "maxlength" -> F(LongLine(2048), 0)
+      [] d = "overlength_u4" -> [F(LongLineU(2049), 108) EXCEPT !.extra = 0]
+      [] d = "maxlength_u4" -> F(LongLineU(2048), 0)
+      [] d = "long_u4_value" -> [F(Wd("_d1") \o Sp \o Q([i \in 1..1100 |-> "<U4>"]), 0) EXCEPT !.items = <<It(Wd("_d1"), Ch([i \in 1..1100 |-> "<U4>"]))>>]
       [] d = "disallowed_char" -> [F(Wd("_d1") \o Sp \o <<"'", "a", "<C1>", "b", "'">>, 104) EXCEPT !.items = <<It(Wd("_d1"), Ch(<<"a", "<C1>", "b">>))>>]
       [] d = "disallowed_char_cmt" -> F(<<"#", "<C1>">>, 104)
       [] d = "disallowed_del" -> [F(Wd("_d1") \o Sp \o <<"a", "<DEL>">>, 104) EXCEPT !.items = <<It(Wd("_d1"), Bare(<<"a", "<DEL>">>))>>]
@@ -141,7 +146,7 @@ DNext == \/ /\ defect = "none" /\ N < NSlots
                   \* an unterminated quoted string runs to the end of its line: a comment tail on that line would belong to it
                   /\ ((d \in {"missing_endquote", "missing_endquote_dq"} /\ q = N) => tail \in {"eof", "eol", "cmteol"})
                   \* a line of exactly the maximum length stays one only if the tail does not lengthen it
-                  /\ ((d = "maxlength" /\ q = N) => tail \in {"eof", "eol", "cmteol"})
+                  /\ ((d \in {"maxlength", "maxlength_u4"} /\ q = N) => tail \in {"eof", "eol", "cmteol"})
                   \* a fragment ending in an open construct at the very end of input needs no follower; one that must be
                   \* followed by a non-value is always followed by a data name, a header or the end of input here
                   /\ defect' = d /\ pos' = q
